@@ -824,7 +824,7 @@ ec_curve_to_point_2f_above_montgomery_from_hint(ec_point_t *P, const ec_curve_t 
     // Compute the x coordinate from the hint and alpha
     // With 1/2^20 chance we can use the table look up
     fp2_t z1, z2;
-    if (hint < 20) {
+    if (hint >= 0 && hint < 20) {
         z2 = Z_NQR_TABLE[hint];
     }
     // Otherwise we create this using the form i + hint
@@ -920,7 +920,7 @@ ec_curve_to_point_2f_not_above_montgomery_from_hint(ec_point_t *P,
 
     // If we got lucky (1/2^20) then we just grab an x-value
     // from the table
-    if (hint < 20) {
+    if (hint >= 0 && hint < 20) {
         x = NQR_TABLE[hint];
     }
     // Otherwise, we find points of the form
